@@ -12,6 +12,7 @@ Every theorem holds for EVERY `c` with `CryptoLaws c` (all keys, counters, image
 import SpsdkVerif.Proofs.FlashEncOtfad
 import SpsdkVerif.Proofs.FlashEncKeyBlob
 import SpsdkVerif.Proofs.FlashEncIee
+import SpsdkVerif.Proofs.FlashEncIeeX
 import SpsdkVerif.Proofs.FlashEncBee
 import SpsdkVerif.Proofs.FlashEncBeeHdr
 import SpsdkVerif.Proofs.FlashEncSb21
@@ -334,6 +335,94 @@ theorem sb21_keywrap_unwraps (h : CryptoLaws c) (start end_ : Nat) (key ctr kek 
       otfadUnwrapEntry c kek 0 e = some ((Sb21.blob start end_ key ctr (end_ &&& otfadKeyFlagMask)).ctx, true) :=
   FlashEnc.sb21_keywrap_unwraps h start end_ key ctr kek rnd hwf hk hr
 
+/-! ## Phase 3: IEE — the remaining CTR modes, the page-offset register, unaligned (16-byte granular) CTR starts.
+    Engine: `ieeHwPageX` / `ieeCtrReadX` of Spec/FlashEncHw.lean under the assumptions A-PO and A-CTR stated there. -/
+
+/-- AES-CTR 128/256 in ALL THREE CTR modes (with / without address binding, keystream only), for EVERY 16-byte aligned
+    system address `p` (not only page aligned), every length, every initial counter (the 32-bit wrap of the counter word
+    included: both sides reduce `word + (L >> 4)` mod 2^32) and every page offset: the engine, reading block by block
+    from `p`, returns what SPSDK encrypted for the logical address `L = p + 4 KiB · pageOffset`. -/
+theorem iee_ctr_modes_invert (h : CryptoLaws c) (b : IeeBlob) (hwf : b.WF) (hc : b.mode.isCtr = true) (p : Nat)
+    (hp : p % 16 = 0) (d : Bytes) :
+    ∃ ct, b.encryptImage c (b.ctx.logical p) d = .ok ct ∧ ct.length = (d.length + 15) / 16 * 16 ∧
+      b.ctx.isCtrMode = true ∧ (ieeCtrReadX c b.ctx (blocksFor ct.length) p ct).take d.length = d := by
+  obtain ⟨ct, h1, h2, h3⟩ := FlashEnc.ieex_ctr_any h b hwf hc p hp d
+  exact ⟨ct, h1, h2, (FlashEnc.ieex_ctx_isCtrMode b hc).1, h3⟩
+
+/-- The assumption A-CTR cannot be weakened: if ANY CTR-type engine (keystream block = AES_key1(`ctr`)) turns the block
+    SPSDK wrote for address `a` back into the plaintext block, then `ctr = KEY2[127:32] ‖ BE32(KEY2[31:0] + (a >> 4))` —
+    in every CTR mode, since SPSDK has one code path for the three of them. -/
+theorem iee_ctr_engine_only (h : CryptoLaws c) (b : IeeBlob) (hwf : b.WF) (hc : b.mode.isCtr = true) (a : Nat)
+    (ha : a % 16 = 0) (blk ctr ct : Bytes) (hblk : blk.length = 16) (hctr : ctr.length = 16)
+    (henc : b.encryptImage c a blk = .ok ct) (hdec : xorBytes ct (c.encBlk (IeeCtx.word b.key1) ctr) = blk) :
+    ctr = (IeeCtx.word b.key2).take 12 ++ beEnc 4 (beDec ((IeeCtx.word b.key2).drop 12) + a / 16) :=
+  FlashEnc.ieex_ctr_engine_only h b hwf hc a ha blk ctr ct hblk hctr henc hdec
+
+/-- Whole image, 1..n pairwise disjoint regions in ANY of the five modes mixed freely (page offset 0): the extended
+    engine reads the plaintext back. -/
+theorem iee_hw_inverts_all_modes (h : CryptoLaws c) (bs : List IeeBlob) (hwf : ∀ b ∈ bs, b.WF ∧ b.pageOffset = 0)
+    (hd : IeeDisjoint bs) (base : Nat) (hb : base % 4096 = 0) (img : Bytes) :
+    ∃ ct, Iee.encryptImage c bs img base = .ok ct ∧
+      (ieeHwReadAllX c (bs.map IeeBlob.ctx) base ct).take img.length = img ∧
+      img.length ≤ ct.length ∧ ct.length ≤ (img.length + 15) / 16 * 16 := by
+  refine ⟨_, FlashEnc.iee_refines_spec h bs (fun b hb' => (hwf b hb').1) hd base hb img, ?_, ?_⟩
+  · exact FlashEnc.ieex_spec_hw h bs hwf base img
+  · exact FlashEnc.iee_spec_length h bs base img
+
+/-- … end to end: the extended engine programmed from the EXPORTED key-blob area. -/
+theorem iee_end_to_end_all_modes (h : CryptoLaws c) (bs : List IeeBlob) (hne : bs ≠ [])
+    (hwf : ∀ b ∈ bs, b.WF ∧ b.pageOffset = 0) (hd : IeeDisjoint bs) (k1 k2 : Bytes) (hk1 : k1.length = 32)
+    (hk2 : k2.length = 32) (hk : k1 ≠ k2) (addr : Nat) (base : Nat) (hb : base % 4096 = 0) (img : Bytes) :
+    ∃ t ct, Iee.encryptKeyBlobs c bs k1 k2 addr = .ok t ∧ Iee.encryptImage c bs img base = .ok ct ∧
+      (ieeHwReadAllX c ((ieeUnwrapTable c k1 k2 addr bs.length t).filterMap id) base ct).take img.length = img := by
+  obtain ⟨t, ht, hu⟩ := iee_keyblobs_unwrap h bs hne (fun b hb' => (hwf b hb').1) k1 k2 hk1 hk2 hk addr
+  obtain ⟨ct, hct, hr, _⟩ := iee_hw_inverts_all_modes h bs hwf hd base hb img
+  refine ⟨t, ct, ht, hct, ?_⟩
+  rw [hu, filterMap_id_map_some]
+  exact hr
+
+/-- Page offset with AES-XTS: the engine reading the system page `p` of the region decrypts what SPSDK encrypted for
+    the logical page `p + 4 KiB · pageOffset` (A-PO: SPSDK's data address is the LOGICAL address). -/
+theorem iee_xts_page_offset (h : CryptoLaws c) (b : IeeBlob) (hwf : b.WF) (hm : b.mode = .xts) (p : Nat) (hp : p % 4096 = 0)
+    (hin : b.start ≤ p ∧ p < b.end_) (d : Bytes) (h0 : 0 < d.length) (hd : d.length ≤ 4096) :
+    ∃ ct, b.encryptImage c (b.ctx.logical p) d = .ok ct ∧ (ieeHwPageX c [b.ctx] p ct).take d.length = d :=
+  FlashEnc.ieex_xts_page_offset h b hwf hm p hp hin d h0 hd
+
+/-- The layout `IeeKeyBlob.plain_data` writes (offsets and sizes GENERATED from the pack formats / align_block sizes of the
+    source) is the layout the ROM-side parser `ieeParseBlob` (hand-written literals) reads: every field of a parsed blob
+    is the slice at the generated offset, the CRC covers exactly the bytes before the generated CRC offset. -/
+theorem iee_layout_agree :
+    ieeBlobOffVersion = 4 ∧ ieeBlobOffAttr = 8 ∧ ieeAttrSize = 4 ∧ ieeBlobOffPageOffset = 12 ∧ ieeBlobOffKey1 = 16 ∧
+    ieeBlobOffKey2 = 48 ∧ ieeBlobOffStart = 80 ∧ ieeBlobOffEnd = 84 ∧ ieeBlobOffCrc = 92 ∧ ieeBlobSize = 96 ∧
+    ieeBlobOffAttr + ieeAttrSize = ieeBlobOffPageOffset ∧ ieeBlobOffKey1 + ieeKeyFieldSize = ieeBlobOffKey2 ∧
+    ieeBlobOffKey2 + ieeKeyFieldSize = ieeBlobOffStart ∧ ieeBlobSize * 4 = ieeKeyBlobsSize := by
+  decide
+
+theorem iee_parse_reads_layout (p : Bytes) (x : IeeCtx) (hx : ieeParseBlob p = some x) :
+    ieeBlobSize ≤ p.length ∧
+    leDec (p.take 4) = ieeHeaderTag ∧ leDec ((p.drop ieeBlobOffVersion).take 4) = ieeKeyblobVersion ∧
+    x.keySizeTag = (p.getD (ieeBlobOffAttr + 1) 0).toNat ∧ x.modeTag = (p.getD (ieeBlobOffAttr + 2) 0).toNat ∧
+    x.pageOffset = leDec ((p.drop ieeBlobOffPageOffset).take 4) ∧
+    x.key1 = (p.drop ieeBlobOffKey1).take ieeKeyFieldSize ∧ x.key2 = (p.drop ieeBlobOffKey2).take ieeKeyFieldSize ∧
+    x.start = leDec ((p.drop ieeBlobOffStart).take 4) ∧ x.end_ = leDec ((p.drop ieeBlobOffEnd).take 4) ∧
+    leDec ((p.drop ieeBlobOffCrc).take 4) = crc32MpegHw (p.take ieeBlobOffCrc) := by
+  unfold ieeParseBlob at hx
+  split at hx
+  · exact absurd hx (by simp)
+  · split at hx
+    · exact absurd hx (by simp)
+    · split at hx
+      · exact absurd hx (by simp)
+      · rename_i h1 h2 h3
+        simp only [Option.some.injEq] at hx
+        subst hx
+        simp only [ieeBlobSize, ieeBlobOffVersion, ieeBlobOffAttr, ieeBlobOffPageOffset, ieeBlobOffKey1, ieeBlobOffKey2,
+          ieeBlobOffStart, ieeBlobOffEnd, ieeBlobOffCrc, ieeKeyFieldSize, ieeHeaderTag, ieeKeyblobVersion]
+        refine ⟨by omega, ?_, ?_, rfl, rfl, rfl, rfl, rfl, rfl, rfl, ?_⟩
+        · exact Classical.byContradiction (fun hh => h2 (Or.inl hh))
+        · exact Classical.byContradiction (fun hh => h2 (Or.inr hh))
+        · exact Classical.byContradiction (fun hh => h3 hh)
+
 /-! ## Non-vacuity and the defect the fix removes -/
 
 section Examples
@@ -378,6 +467,31 @@ private def exIee : IeeBlob :=
 example : exIee.WF ∧ exIee.claimed ∧ IeeDisjoint [exIee] := by
   refine ⟨⟨by decide, by decide, by decide, by decide, by decide, by decide, by decide, by decide⟩, by simp [IeeBlob.claimed, exIee],
     by simp [IeeDisjoint]⟩
+
+private def exIeeNA : IeeBlob :=
+  { lock := false, keySize := .k256, mode := .ctrNoAddr, start := 0x3000, end_ := 0x5000,
+    key1 := List.replicate 32 5, key2 := List.replicate 12 6 ++ [0xF0, 0xFF, 0xFF, 0xFF], pageOffset := 3 }
+private def exIeeKS : IeeBlob :=
+  { lock := true, keySize := .k128, mode := .ctrKeystream, start := 0x6000, end_ := 0x7000,
+    key1 := List.replicate 16 7, key2 := List.replicate 16 0xFF }
+
+/-- non-vacuity of the Phase 3 IEE theorems: the two remaining CTR modes (counter word next to the 32-bit wrap, a
+    non-zero page offset), all five modes side by side -/
+example : exIeeNA.WF ∧ exIeeNA.mode.isCtr = true ∧ exIeeKS.WF ∧ exIeeKS.mode.isCtr = true ∧ exIeeKS.pageOffset = 0 ∧
+    IeeDisjoint [exIee, exIeeNA, exIeeKS] := by
+  refine ⟨⟨by decide, by decide, by decide, by decide, by decide, by decide, by decide, by decide⟩, rfl,
+    ⟨by decide, by decide, by decide, by decide, by decide, by decide, by decide, by decide⟩, rfl, rfl,
+    by simp [IeeDisjoint, exIee, exIeeNA, exIeeKS]⟩
+
+/-- … and the engine really depends on the assumptions: at an unaligned-in-page address with a wrapping counter the toy
+    engine reads SPSDK's CTRWOAddress ciphertext back, and does NOT when read one block further on -/
+example : (match exIeeNA.encryptImage toy (exIeeNA.ctx.logical 0x3010) exImg with
+    | .ok ct => decide (ct ≠ exImg ∧ ieeCtrReadX toy exIeeNA.ctx 2 0x3010 ct = exImg ∧ ieeCtrReadX toy exIeeNA.ctx 2 0x3020 ct ≠ exImg)
+    | .error _ => false) = true := by
+  decide +kernel
+
+/-- non-vacuity of `iee_parse_reads_layout`: the plain key blob of `exIeeNA` parses -/
+example : (exIeeNA.plainData.toOption.bind ieeParseBlob).isSome = true := by decide +kernel
 
 private def exBee : BeeEngine := ⟨List.replicate 16 7, List.replicate 12 9 ++ [0, 0, 0, 0], [⟨0x1000, 0x800⟩]⟩
 
